@@ -112,7 +112,7 @@ int cmd_chunkreq(FILE *job, FILE *out) {
     c.alpha = c.nchunks * 2 + (c.extra ? 4 + c.nchunks : 0);
     long total = 0, block = c.alpha;
     for(int l = 1; l <= c.depth; l++) { total += block; block *= c.alpha; }
-    run_opts o = {.chunk = 128, .timeout_ms = 10000};
+    run_opts o = {.chunk = 128, .timeout_ms = 10000, .confirm_hang = true};
     run_cases((int)total + c.nexp, run_one, &c, o, out);
     return 0;
 }
